@@ -278,6 +278,30 @@ def validate_trace(trace_module, trace_path, cfg=None, timeout=900, extra_files=
     return v
 
 
+def tlapm(module, deps=(), timeout=900):
+    """Check a TLAPS proof module in a scratch copy (no fingerprint cache). Returns the number of obligations;
+    raises MachineryError unless every obligation is proved."""
+    d = os.path.join(WORK, "tlaps", "%s-%d" % (module, os.getpid()))
+    shutil.rmtree(d, ignore_errors=True)
+    os.makedirs(d)
+    for f in (module,) + tuple(deps):
+        shutil.copy(os.path.join(SPEC, f + ".tla"), d)
+    t0 = time.time()
+    try:
+        p = subprocess.run(["tlapm", "--threads", str(min(NCPU, 16)), module + ".tla"], cwd=d, timeout=timeout,
+                           stdout=subprocess.PIPE, stderr=subprocess.STDOUT, text=True, errors="replace")
+    except subprocess.TimeoutExpired:
+        raise MachineryError("tlapm timeout on %s" % module)
+    finally:
+        pass
+    m = re.search(r"All (\d+) obligations proved", p.stdout)
+    shutil.rmtree(d, ignore_errors=True)
+    if not m:
+        raise MachineryError("tlapm did not prove %s:\n%s" % (module, p.stdout[-3000:]))
+    log("tlapm %s: %s obligations proved, %.1fs" % (module, m.group(1), time.time() - t0))
+    return int(m.group(1))
+
+
 # --------------------------------------------------------------------------- known findings
 
 def load_known():
